@@ -16,6 +16,7 @@ from ..tlc import MachineryError
 LEVEL = 'model_checking'
 SKIP_MC = bool(__import__('os').environ.get('VERIF_TXN_SKIP_MC'))
 
+WINDOW_SIG = 'C19:failed-commit-or-rollback:lock-released-before-transaction-ended'
 SETUP_SIG = 'C19:sqlite-connect-setup-failure:pool-keeps-unconfigured-connection'
 EXPECTED_DEAD = {'LockReleaseDrop': 'SQLiteProvider.drop releases the lock only when the cache is in a transaction; that '
                                     'happens only on the reconnect path, and SQLite never reconnects (D3)',
@@ -54,6 +55,8 @@ def policy_of(p):
         return sched_txn.sequential()
     if p[0] == 'switch':
         return sched_txn.stay_then_switch(set(p[1]))
+    if p[0] == 'onrelease':
+        return 'onrelease'
     if p[0] == 'rand':
         return sched_txn.seeded(random.Random(p[1]))
     raise AssertionError(p)
@@ -81,6 +84,10 @@ def scenarios(ctx, space):
         for n2 in two:
             base = dict(name='%s || %s' % (n1, n2), threads=[[sh[n1]], [sh[n2]]], fault=None)
             yield dict(base, policy=['seq'], sweep=not quick, preempt=True, sweep_preempt=quick and n1 == 'immediate')
+    # -- the window right after release_lock(): the waiting thread goes first ------------------------------------------
+    for n1, n2 in [('immediate', 'immediate'), ('optimistic write', 'raising')] + ([] if quick else [('ddl', 'immediate'), ('generator', 'nested')]):
+        yield dict(name='%s || %s (switch on release)' % (n1, n2), threads=[[sh[n1]], [sh[n2]]], fault=None,
+                   policy=['onrelease'], sweep=True)
     # -- three threads: seeded schedules ---------------------------------------------------------------------------
     names = list(sh)
     for i in range(6 if quick else 60):
@@ -96,7 +103,8 @@ def run(ctx):
     two = dict(NActors=2, NThreads=2, Forms='{"cm"}', ExcKinds='{"other"}', MaxNest=1, MaxWrites=1)
     if quick:
         runs = [('one-thread', txnlib.mc_cfg(inv, txnlib.ALL_PROP), True),
-                ('two-threads', txnlib.mc_cfg(inv, txnlib.ALL_PROP, Kinds='{"imm"}', **two), False),
+                ('two-threads-unreduced', txnlib.mc_cfg(inv, txnlib.ALL_PROP, Kinds='{"imm"}', Reduce='FALSE',
+                                                        **dict(two, MaxOps=1, MaxRetry=0)), False),
                 ('liveness', txnlib.mc_cfg(['TypeOK'], ['LockEventuallyFree1', 'Terminates'], spec='FairSpec1',
                                            Kinds='{"imm"}', **dict(two, MaxOps=1, ExcKinds='{}', MaxRetry=0)), False)]
     else:
@@ -105,6 +113,8 @@ def run(ctx):
                                               Kinds='{"opt","imm","ddl"}', ExcKinds='{"other"}', MaxNest=1), False),
                 ('three-threads', txnlib.mc_cfg(inv, txnlib.ALL_PROP, NActors=3, NThreads=3, Forms='{"cm"}', Kinds='{"imm"}',
                                                 ExcKinds='{"other"}', MaxNest=1, MaxWrites=1, MaxOps=1), False),
+                ('two-threads-unreduced', txnlib.mc_cfg(inv, txnlib.ALL_PROP, Kinds='{"opt","imm"}', Reduce='FALSE',
+                                                        **dict(two, MaxOps=1, MaxRetry=0)), False),
                 ('generic-provider', txnlib.mc_cfg(inv, txnlib.ALL_PROP, Provider='"generic"'), False),
                 ('liveness', txnlib.mc_cfg(['TypeOK'], ['LockEventuallyFree', 'Terminates'], spec='FairSpec',
                                            Kinds='{"opt","imm"}', **dict(two, MaxOps=1)), False),
@@ -123,6 +133,13 @@ def run(ctx):
         transitions += res.generated
         if cov:
             check_coverage(res)
+    if not SKIP_MC:
+        res = tlc.run('PonyTxn', txnlib.mc_cfg(['LockCoversTx'], Kinds='{"imm"}', **dict(two, MaxOps=1)), ctx.scratch, workers=4,
+                      must_succeed=False, tag='c19-lockcovers')
+        if 'LockCoversTx' not in res.violated:
+            raise MachineryError('LockCoversTx is expected to be violated by PonyTxn (release before rollback after a failed '
+                                 'commit); TLC did not find it:\n' + tlc._tail(res.stdout, 30))
+        mc['LockCoversTx (violation expected and found)'] = dict(states=res.distinct, transitions=res.generated)
     # ---- 2. scenario space from the spec -----------------------------------------------------------------------------
     space, _ = tlc.evaluate('PonyTxnScenarios', ctx.scratch)
     # ---- 3. real executions ------------------------------------------------------------------------------------------
@@ -176,7 +193,12 @@ def run(ctx):
     accepted = 0
     nontrivial = 0
     for (sc, o), r in zip(items, results[:nreal]):
-        if r['accepted'] and not o['stuck'] and not o['unexpected'] and not any(e.startswith('AssertionError') for e in o['errors'].values()):
+        if r['soft']:
+            ctx.mismatch(WINDOW_SIG, 'scenario %r fault=%r policy=%r: after event %d (%r) the transaction lock is free while connection '
+                         'still has an open SQLite transaction; DB-API failures without injected fault in this run: %r' % (
+                             sc['name'], o['fault_hit'], sc.get('policy'), r['soft'][0] - 1,
+                             txnlib.brief(o['trace']['evs'][r['soft'][0] - 2]), o['unexpected'][:2]), replay=sc)
+        if r['accepted'] and not o['stuck'] and not any(e.startswith('AssertionError') for e in o['errors'].values()):
             accepted += 1
             if sc.get('fault') or len(sc['threads']) > 1:
                 nontrivial += 1
@@ -265,7 +287,7 @@ def report(ctx, sc, o, r):
         return
     if o['stuck']:
         sig = 'C19:%s:fault@%s:blocked' % (sc['name'], fault_name(o))
-    elif o['unexpected']:       # a DB-API call failed although no fault was injected there (e.g. "database is locked")
+    elif o['unexpected']:       # a DB-API call failed without injected fault and the specification does not explain it
         sig = 'C19:%s:fault@%s:spontaneous-%s-failure' % (sc['name'], fault_name(o), o['unexpected'][0][2] if o['unexpected'][0][1] == 'exec' else o['unexpected'][0][1])
     elif r['inv']:
         sig = 'C19:%s:fault@%s:%s' % (sc['name'], fault_name(o), r['inv'][1])
